@@ -235,6 +235,37 @@ def check(ctx, timeout):
                 secs, be, ob.note or ob.kind)
     if not reached:
         res.add("bitpacked1.callsite[read_plain_boolean].reached", UNKNOWN, None, 0.0, "engine", "the kernel call was not reached")
+    # ---- statistics buffers must never reach the length-prefixed byte-array unpacker --------------------------------------
+    # encoding.read_plain(raw, BYTE_ARRAY, count) hands `raw` to speedups.unpack_byte_array, whose contract (contracts/c12_speedups:
+    # "n values back to back, each a 4-byte length + payload, inside the buffer") a RAW statistic value (Statistics.min/max: the bare
+    # bytes of ONE value, no length prefix) does not satisfy: its first four bytes would be read as a length (heap over-read /
+    # SIGSEGV). The only caller-side way to keep the precondition is the `stat=True` switch of read_plain. Posed per call site of
+    # api.py (which decodes nothing but statistics): keyword stat is the constant True.
+    afuncs, atree, _ = parse_module("fastparquet/api.py")
+    n_stat = 0
+    for node in ast.walk(atree):
+        if isinstance(node, ast.Call) and ((isinstance(node.func, ast.Attribute) and node.func.attr == "read_plain")
+                                           or (isinstance(node.func, ast.Name) and node.func.id == "read_plain")):
+            n_stat += 1
+            kw = {k.arg: k.value for k in node.keywords}
+            ok = isinstance(kw.get("stat"), ast.Constant) and kw["stat"].value is True
+            cnt = node.args[2] if len(node.args) > 2 else kw.get("count")
+            one = isinstance(cnt, ast.Constant) and cnt.value == 1
+            res.add(f"read_plain.statistic_decoded_with_stat_switch[api.py:{_enclosing(atree, node)}:#{n_stat}]",
+                    PROVED if ok and one else REFUTED, None if ok and one else {"call": ast.unparse(node)[:160]}, 0.0, "ast",
+                    "a raw Statistics value is decoded with read_plain(..., 1, stat=True): it never reaches unpack_byte_array, whose "
+                    "precondition (length-prefixed values inside the buffer) it does not satisfy")
+    if n_stat < 6:
+        ctx.engine_error(f"C03 call sites: only {n_stat} statistic decode sites found in api.py (expected >= 6)")
     if n_sites < 6:
         ctx.engine_error(f"C03 call sites: only {n_sites} decoder call sites found (expected >= 6)")
     return res
+
+
+def _enclosing(tree, node):
+    """name of the function whose body contains `node` (for stable obligation names without line numbers)"""
+    best = "?"
+    for f in ast.walk(tree):
+        if isinstance(f, (ast.FunctionDef, ast.AsyncFunctionDef)) and any(n is node for n in ast.walk(f)):
+            best = f.name
+    return best
